@@ -5,7 +5,7 @@ from ..world import Session, is_contextual, sync_streams
 
 ID = "C10"
 LEVEL = "exploration"
-QUICK_RUNS = 800
+QUICK_RUNS = 3200
 RULE = ("Each run: drawn policy combination with drawn n_jobs/backend, a training history, a deep copy, then a drawn "
         "number of queries of drawn sizes on the primary only -- executed under seeded thread/process schedules, "
         "random partitions and injected worker failures -- then all stream positions are copied to the unqueried "
